@@ -141,15 +141,24 @@ def split_scenarios(lines):
     return scen
 
 
-def _validate_chunk(module, cfg, lines, dest, timeout):
+def uncovered_expressions(out):
+    """Spec expressions (module:line) TLC's -coverage reports as never evaluated."""
+    return sorted({"%s:%s" % (m.group(2), m.group(1))
+                   for m in re.finditer(r"^\s+line (\d+), col \d+ to line \d+, col \d+ of module (\w+): 0\s*$", out, re.M)})
+
+
+def _validate_chunk(module, cfg, lines, dest, timeout, cover=False):
     """Run the trace spec over `lines`; return None if accepted else (lineno, text)."""
     os.makedirs(dest, exist_ok=True)
     tf = os.path.join(dest, "trace.ndjson")
     with open(tf, "w") as f:
         f.write("".join(lines))
     r = tlc(module, cfg, dest, workers=1, timeout=timeout, env={"TRACE": tf},
-            java_opts=["-Xss1g", "-Xmx3g", "-Dtlc2.tool.queue.IStateQueue=StateDeque"])
+            java_opts=["-Xss1g", "-Xmx3g", "-Dtlc2.tool.queue.IStateQueue=StateDeque"],
+            extra=["-coverage", "1"] if cover else None)
     out = r["out"]
+    if cover:
+        r["uncovered"] = uncovered_expressions(out)
     if r["ok"]:
         return None, r
     m = re.search(r'"TRACE-REJECTED at line",\s*(\d+)', out)
@@ -175,7 +184,7 @@ def validate_traces(module, cfg, trace_file, name, shards=8, timeout=600, max_re
     base = workdir(name)
     chunks = [scen[i::shards] for i in range(shards)]
     chunks = [c for c in chunks if c]
-    stats = dict(generated=0, distinct=0, runs=0)
+    stats = dict(generated=0, distinct=0, runs=0, uncovered=None)
 
     def work(args):
         idx, chunk = args
@@ -184,7 +193,12 @@ def validate_traces(module, cfg, trace_file, name, shards=8, timeout=600, max_re
         while chunk and len(rej) < max_reject:
             lines = [ln for sc in chunk for ln in sc]
             res, r = _validate_chunk(module, cfg, lines, os.path.join(base, "s%d_%d" % (idx, run)),
-                                     timeout)
+                                     timeout, cover=True)
+            # spec expressions no shard ever evaluated: the part of the specification these
+            # traces did not exercise (intersection over the shards' first complete runs)
+            if res is None and "uncovered" in r:
+                u = set(r["uncovered"])
+                stats["uncovered"] = u if stats["uncovered"] is None else (stats["uncovered"] & u)
             run += 1
             stats["generated"] += r["generated"]
             stats["distinct"] += r["distinct"]
